@@ -32,7 +32,7 @@ DEC_RE = re.compile(r"^-?\d+\.\d+$")
 def plan(tier, seed):
     n = 8 if tier == "quick" else 32
     specs = [{"kind": "roundtrip", "n": 1800 if tier == "quick" else 12000} for _ in range(n)]
-    specs += [{"kind": "ladder"}]
+    specs += [{"kind": "ladder"}, {"kind": "suite"}]
     specs += [{"kind": "mutrender", "n": 500 if tier == "quick" else 5000} for _ in range(2 if tier == "quick" else 6)]
     specs += [{"kind": "intpayload", "n": 400 if tier == "quick" else 4000} for _ in range(2 if tier == "quick" else 4)]
     return specs
@@ -418,6 +418,9 @@ def run_mutate_rerender(spec, ctx):
 
 
 def run_shard(spec, ctx):
+    if spec["kind"] == "suite":
+        from cklmon import suite
+        return suite.run_suite(ctx, "C08", "payload")
     if spec["kind"] == "mutrender":
         return run_mutate_rerender(spec, ctx)
     if spec["kind"] == "intpayload":
@@ -437,6 +440,8 @@ def finalize(merged, tier):
     for k in ("renderings", "roundtrips", "string_relex", "literal_evaluations", "int_invariant_evaluations", "mutate_rerender_programs"):
         if c.get(k, 0) == 0:
             reasons.append("monitor counter %s is zero" % k)
+    if c.get("suite_tests", 0) == 0 or c.get("suite_report_missing", 0):
+        reasons.append("M9: the repository suite under monitors produced no observations")
     extra = {"exhaustive_subspace": "decimal magnitude ladder: 5 mantissas x every decimal exponent -324..308 x both signs; powers of two to 2^79"}
     return extra, reasons
 
